@@ -353,7 +353,19 @@ type ChildOut struct {
 	Res   uint32 `json:"res"`
 }
 
-func child(dir string, seed uint64, m int, startAt int64, fsize int64) int {
+func child(dir string, seed uint64, m int, startAt int64, fsize int64, uid int, vanish bool) int {
+	if uid > 0 && os.Getuid() == 0 {
+		// an unprivileged reader: permission bits mean nothing to root
+		_ = syscall.Setgroups([]int{})
+		if err := syscall.Setgid(uid); err != nil {
+			fmt.Println(`{"ok":false,"stage":"setgid"}`)
+			return 5
+		}
+		if err := syscall.Setuid(uid); err != nil {
+			fmt.Println(`{"ok":false,"stage":"setuid"}`)
+			return 5
+		}
+	}
 	if fsize >= 0 {
 		// writes beyond fsize bytes fail with EFBIG: drives the failure path of fileCache.Add
 		signal.Ignore(syscall.SIGXFSZ)
@@ -374,6 +386,10 @@ func child(dir string, seed uint64, m int, startAt int64, fsize int64) int {
 	if err != nil {
 		emit(ChildOut{Stage: "cache", Err: err.Error()})
 		return 3
+	}
+	if vanish {
+		// the cache directory disappears after the cache object was made
+		_ = os.RemoveAll(dir)
 	}
 	r := wazero.NewRuntimeWithConfig(ctx, wazero.NewRuntimeConfigCompiler().WithCompilationCache(cache))
 	cm, err := r.CompileModule(ctx, bin)
@@ -448,7 +464,7 @@ type childProc struct {
 	err strings.Builder
 }
 
-func startChild(dir string, seed uint64, m int, crash string, startAt int64) *childProc {
+func startChild(dir string, seed uint64, m int, crash string, startAt int64, extra ...string) *childProc {
 	p := &childProc{}
 	fsize := "-1"
 	if strings.HasPrefix(crash, "fsize:") {
@@ -456,6 +472,7 @@ func startChild(dir string, seed uint64, m int, crash string, startAt int64) *ch
 	}
 	p.cmd = exec.Command(os.Args[0], "-mode", "child", "-dir", dir, "-seed", fmt.Sprint(seed), "-mod", fmt.Sprint(m),
 		"-startat", fmt.Sprint(startAt), "-fsize", fsize)
+	p.cmd.Args = append(p.cmd.Args, extra...)
 	p.cmd.Env = append(os.Environ(), "WAZERO_VERIF_CRASH="+crash)
 	p.cmd.Stdout, p.cmd.Stderr = &p.out, &p.err
 	if err := p.cmd.Start(); err != nil {
@@ -493,8 +510,8 @@ func (p *childProc) wait() Run {
 	return r
 }
 
-func runChild(dir string, seed uint64, m int, crash string) Run {
-	return startChild(dir, seed, m, crash, 0).wait()
+func runChild(dir string, seed uint64, m int, crash string, extra ...string) Run {
+	return startChild(dir, seed, m, crash, 0, extra...).wait()
 }
 
 type Event struct {
@@ -643,7 +660,12 @@ func fsMode(seed uint64, base string, nmods, nconc, copies int, out *c.Out) {
 			if err := os.WriteFile(filepath.Join(sd, fname), data, 0o600); err != nil {
 				panic(err)
 			}
-			e := ev("planted")
+			kind := "damaged" // damage in the middle / trailing bytes: judged by the second part of the check
+			switch what {
+			case "truncated", "other-version", "other-version-length", "code-byte-flipped":
+				kind = "planted"
+			}
+			e := ev(kind)
 			e.What, e.N = what, n
 			e.Runs = append(e.Runs, r0)
 			e.Files = listDir(d)
@@ -657,6 +679,102 @@ func fsMode(seed uint64, base string, nmods, nconc, copies int, out *c.Out) {
 				plant("truncated", k, entry[:k])
 			}
 		}
+		if L > 10 && string(entry[7:10]) == "dev" && hasFn {
+			// damage in the MIDDLE of the entry, one field each
+			nf := int(entry[10]) | int(entry[11])<<8
+			offAt := 14
+			elenAt := offAt + 8*nf
+			elen := int(entry[elenAt]) | int(entry[elenAt+1])<<8 | int(entry[elenAt+2])<<16
+			codeAt := elenAt + 8
+			crcAt := codeAt + elen
+			flagAt := crcAt + 4
+			if flagAt < L {
+				patched := func(pos int, bs ...byte) []byte {
+					w := append([]byte{}, entry...)
+					copy(w[pos:], bs)
+					return w
+				}
+				mp := rng.Intn(6)
+				plant("magic-byte", mp, patched(mp, entry[mp]^0x20))
+				plant("count-low", 10, patched(10, entry[10]+1))
+				plant("count-low-minus", 10, patched(10, entry[10]-1))
+				plant("count-high", 13, patched(13, 0x40)) // asks for an 8 GiB slice
+				plant("offset0-byte", offAt, patched(offAt, entry[offAt]^0x10))
+				plant("offset-last-byte", offAt+8*(nf-1), patched(offAt+8*(nf-1), entry[offAt+8*(nf-1)]^0x10))
+				hp := offAt + 8*rng.Intn(nf) + 5
+				plant("offset-high-byte", hp, patched(hp, 0x7f))
+				plant("codelen-zero", elenAt, patched(elenAt, 0, 0, 0, 0, 0, 0, 0, 0))
+				plant("codelen-minus", elenAt, patched(elenAt, entry[elenAt]-1))
+				plant("codelen-plus", elenAt, patched(elenAt, entry[elenAt]+1))
+				plant("codelen-high", elenAt+5, patched(elenAt+5, 1)) // 1 TiB of code
+				plant("codelen-negative", elenAt+7, patched(elenAt+7, 0x80))
+				cp := crcAt + rng.Intn(4)
+				plant("crc-byte", cp, patched(cp, entry[cp]^byte(1<<uint(rng.Intn(8)))))
+				plant("flag-set", flagAt, patched(flagAt, 1))
+				plant("flag-other", flagAt, patched(flagAt, 2))
+				garbage := make([]byte, 1+rng.Intn(64))
+				for i := range garbage {
+					garbage[i] = byte(rng.U64())
+				}
+				plant("trailing-garbage", L, append(append([]byte{}, entry...), garbage...))
+				plant("trailing-sourcemap-like", L, append(append([]byte{}, entry...), 1, 0xff, 0xff, 0xff, 0xff, 0xff, 0xff, 0xff, 0x7f))
+			}
+		}
+		// not a regular readable file under the final name; a directory that goes away
+		special := func(what string, prep func(sd string) bool, extra ...string) {
+			d := fresh()
+			r0 := runChild(d, seed, m, "created")
+			sd := subDir(d)
+			if sd == "" {
+				return
+			}
+			for _, f := range listDir(d) {
+				os.Remove(filepath.Join(sd, f.Name))
+			}
+			if !prep(sd) {
+				return
+			}
+			e := ev("special")
+			e.What = what
+			e.Runs = append(e.Runs, r0)
+			e.Files = listDir(d)
+			a := runChild(d, seed, m, "", extra...)
+			e.After = &a
+			e.Files2 = listDir(d)
+			if what == "unreadable" {
+				_ = os.Chmod(filepath.Join(sd, fname), 0o600)
+				e.Files2 = listDir(d)
+			}
+			// and one more undisturbed process afterwards
+			if what == "dir-vanishes-between-runs" || what == "dir-vanishes-within-run" {
+				b := runChild(d, seed, m, "")
+				e.Runs = append(e.Runs, b)
+				e.Files2 = listDir(d)
+			}
+			out.Emit(e)
+		}
+		special("directory", func(sd string) bool { return os.Mkdir(filepath.Join(sd, fname), 0o700) == nil })
+		if os.Getuid() == 0 {
+			special("unreadable", func(sd string) bool {
+				// everything but the entry is open to the unprivileged reader
+				for p := sd; len(p) >= len(base); p = filepath.Dir(p) {
+					_ = os.Chmod(p, 0o777)
+				}
+				for p := filepath.Dir(base); p != "/" && p != "."; p = filepath.Dir(p) {
+					if st, err := os.Stat(p); err == nil && st.Mode().Perm()&0o005 != 0o005 {
+						_ = os.Chmod(p, st.Mode().Perm()|0o005)
+					}
+				}
+				return os.WriteFile(filepath.Join(sd, fname), entry, 0o000) == nil && os.Chmod(filepath.Join(sd, fname), 0o000) == nil
+			}, "-uid", "65534")
+		}
+		special("dir-vanishes-between-runs", func(sd string) bool {
+			if err := os.WriteFile(filepath.Join(sd, fname), entry, 0o600); err != nil {
+				return false
+			}
+			return os.RemoveAll(filepath.Dir(sd)) == nil
+		})
+		special("dir-vanishes-within-run", func(sd string) bool { return true }, "-vanish")
 		if L > 10 && string(entry[7:10]) == "dev" {
 			w := append([]byte{}, entry...)
 			w[9] = 'w'
@@ -865,10 +983,34 @@ func main() {
 	mod := flag.Int("mod", 1, "child: module index")
 	startAt := flag.Int64("startat", 0, "child: spin until this UnixNano")
 	fsize := flag.Int64("fsize", -1, "child: RLIMIT_FSIZE (bytes), -1 = none")
+	uid := flag.Int("uid", 0, "child: drop to this uid/gid first (only when root)")
+	vanish := flag.Bool("vanish", false, "child: remove the cache directory after the cache object was made")
+	set := flag.String("set", "", "schild: the settings")
+	modFile := flag.String("modfile", "", "schild: compile this file instead of a generated module")
+	dwarfMod := flag.String("dwarfmod", "", "settings: a module with DWARF sections")
+	full := flag.Bool("full", false, "settings: the larger lattice")
+	vhex := flag.String("v", "", "probe: reader version (hex)")
+	data := flag.String("data", "", "probe: entry (hex)")
 	flag.Parse()
 	switch *mode {
 	case "child":
-		os.Exit(child(*dir, *seed, *mod, *startAt, *fsize))
+		os.Exit(child(*dir, *seed, *mod, *startAt, *fsize, *uid, *vanish))
+	case "schild":
+		os.Exit(schild(*dir, *seed, *mod, parseSet(*set), *modFile))
+	case "probe":
+		os.Exit(probeChild(*vhex, *data))
+	case "settings":
+		out := c.NewOut()
+		settingsMode(*seed, *dir, *mods, *conc, *dwarfMod, *full, out)
+		out.Flush()
+	case "damaged":
+		out := c.NewOut()
+		damagedMode(*seed, *n, out)
+		out.Flush()
+	case "samekey":
+		out := c.NewOut()
+		sameKeyMode(*seed, *dir, *mods, *conc, *n, out)
+		out.Flush()
 	case "codec":
 		out := c.NewOut()
 		rng := c.NewRng(*seed)
